@@ -58,6 +58,8 @@ def run(ctx):
             peers.append({'banner': 'SSH-2.0-OpenSSH_9.6', 'kex': ['curve25519-sha256'], 'key': ['ssh-ed25519'], 'enc': ['aes128-cbc'], 'mac': [n], 'client_audit': False})
     peers += [g.peer() for _ in range(60 if q else 1500)]
     recs = reportfam.standard(ctx, 0, peers=peers)
+    # the same rule end to end: real command line over TCP, server audits and -c client audits (the role decides which marker and which direction counts)
+    recs += reportfam.cli_records(ctx, rng.sample(peers, min(len(peers), 16 if q else 300)))
     nontriv = set()
     for r in recs:
         p = r['peer']
